@@ -16,11 +16,18 @@ synchronous function), see `harness/corr/C05.py`.  Every function has one local 
   loop k b         for _ in range(k): b
   ret e            return e
   raise n          raise UserError(n)
+  raiseB n         raise UserBase(n)         (`class UserBase(BaseException)`: NOT an `Exception`)
   ifLt n a b       if acc < n: a  else: b
-  call w p         acc = <result of the nested function with body p>;
+  call w c p       acc = <result of the nested function with body p>;
                    w = true : through a new Deferred (`yield inner()` of a decorated function, of a bare
-                              generator/coroutine object; `await ensureDeferred(inner())`)
-                   w = false: direct delegation (`yield from inner()` / `await inner()`)
+                              generator/coroutine object; `await ensureDeferred(inner())`); the nested
+                              function is a coroutine (`async def`) iff `c`, else a generator
+                   w = false: direct delegation (`yield from inner()` / `await inner()`); the nested
+                              function is of the same kind as the caller (`c` is not read)
+
+Every function is either a GENERATOR (`yield d`: the Deferred goes to `_inlineCallbacks`) or a COROUTINE
+(`await d`: `Deferred.__await__` runs first and only yields the Deferred to `_inlineCallbacks` if it has no
+result yet).  The kind is not part of `Stmt` except at `call true`: `Machine.denote` takes it as a parameter.
 
 Awaited Deferreds are allocated dynamically: the k-th executed `await` (counted over the whole
 run, nested functions included) awaits Deferred number k, so no Deferred is awaited twice.
@@ -31,6 +38,7 @@ namespace Twisted.Inline
 inductive Exc where
   | user (n : Nat)       -- `UserError(n)`
   | cancelled            -- `twisted.internet.defer.CancelledError()`
+  | base (n : Nat)       -- `UserBase(n)`, a `BaseException` that is not an `Exception`
   deriving Repr, DecidableEq
 
 /-- outcome of a Deferred / of a function call: a value or a raised exception -/
@@ -62,9 +70,12 @@ inductive Catch where
   | all                  -- `except Exception`
   | user                 -- `except UserError`
   | canc                 -- `except CancelledError`
+  | base                 -- `except BaseException`
   deriving Repr, DecidableEq
 
 def Catch.catches : Catch → Exc → Bool
+  | .base, _ => true
+  | .all, .base _ => false
   | .all, _ => true
   | .user, .user _ => true
   | .canc, .cancelled => true
@@ -74,6 +85,7 @@ def Catch.catches : Catch → Exc → Bool
 def Exc.code : Exc → Nat
   | .user n => n
   | .cancelled => 1000
+  | .base n => 2000 + n
 
 inductive Stmt where
   | skip
@@ -87,8 +99,9 @@ inductive Stmt where
   | loop (k : Nat) (body : Stmt)
   | ret (e : Expr)
   | raise (n : Nat)
+  | raiseB (n : Nat)
   | ifLt (n : Nat) (a b : Stmt)
-  | call (wrapped : Bool) (p : Stmt)
+  | call (wrapped : Bool) (coro : Bool) (p : Stmt)
   deriving Repr, DecidableEq
 
 /-- what the function bodies log (the values/exceptions *observed inside the function*) -/
